@@ -19,7 +19,19 @@ def _stage(dot, adapter_mod, factory, args, preload):
     res = graphreplay.replay(g, lambda: make(*args))
     devs = []
     for d in res['deviations']:
-        devs.append(dict(dev=d['dev'], path=graphreplay.path_labels(g, res, d['src'], d['ei'])))
+        labs = graphreplay.path_labels(g, res, d['src'], d['ei'])
+        if labs and not any('(' in l for l in labs):
+            # actions without parameters in their label: describe the steps by the `out` variable
+            nodes = [d['src']]
+            while res['tree_path'](nodes[0]):
+                nodes.insert(0, res['tree_path'](nodes[0])[-1][0]) if False else None
+                break
+            outs = []
+            for (s_, e_) in res['tree_path'](d['src']) + [(d['src'], d['ei'])]:
+                o = g.nodes[g.out[s_][e_][0]].get('out', {})
+                outs.append('%s(%s)' % (o.get('act', '?'), ', '.join(str(o[k]) for k in ('a', 'b', 'c') if o.get(k))))
+            labs = outs
+        devs.append(dict(dev=d['dev'], path=labs))
     crashes = [graphreplay.path_labels(g, res, c['src'], c['ei']) for c in res['crashes']]
     sample = []
     for s in list(g.out)[3:6]:
